@@ -1,12 +1,12 @@
-\* REPAIRED design: tree T3w, 1 restart: all properties hold (compare MC_DposLib_lower.cfg)
+\* tree T4s (the observer follows o1..o3, reorganises to d1..d4 built by producer 3 alone, then d5..d7): one observer, 2 restarts: no proposal of the abandoned branch survives, all properties
 SPECIFICATION Spec
 CONSTANTS
-  N = 3
+  N = 4
   Byz <- NoByz
   Nodes <- Obs1
-  Blk0 <- T3w
-  MaxBlocks = 15
-  MaxRestarts = 1
+  Blk0 <- T4s
+  MaxBlocks = 10
+  MaxRestarts = 2
   ByzMode = "branch"
   ByzRanges <- R123
   Fixes <- AllFixes
